@@ -185,7 +185,7 @@ EXTRA = {
     "C12": "Pipelines with NOA / AF0 records, --prior-frequencies AFP and --filter-input-haplotypes on real assemble output (record count in == out), use_snvpos, loci of 300 bases with >= 130 SNV columns / ALTs, five-symbol columns, two contigs, overlapping targets, --region. Variant records on the bases next to every target with an SNVPOS oracle; call-exact with a core count that does not divide the records.",
     "C13": "Printed GT / AFP / AOP / GP of every sample are compared with what the recorded posteriors imply (incl. no mass on a masked reference); thresholds 0, default, 0.95, 1.0; samples without reads; 1-5 samples; >= 10 ALT alleles; seven --report subsets. Label dictionaries with allele numbers 120..40000 (beyond a byte) with a direct GT oracle. Genotypes stored in arbitrary haplotype order; very shallow data at threshold 1.0 (NOA + REFMASKED records).",
     "C14": "Program-level part: the traces handed to assemble / call / call-pedigree are recorded (or substituted by synthetic traces whose chains agree / disagree inside or outside the burn-in) and printed GT / GPM / SPM / MCI / AFP / GP are recomputed from the trace minus exactly --mcmc-burn steps per chain, for --mcmc-chains 1-3 and several thresholds; long traces (> 255 repeats), ploidy 3-4 large panels, relabel summaries, wide pedigree traces. Traces over 33-130 positions and five symbols (haplotypes differing in the leading / last columns only).",
-    "C15": "Whole DenovoMCMC.fit iterations with recorders (every (haplotype, site) pair once per step and temperature with the site's own allele number, random_breaks on the non-fixed SNVs, intervals partition), loci of 130-300 SNVs, inbreeding on both sides, thresholds 0 .. 1, the command-line value of --mcmc-fix-homozygous reaching the sampler (option plumbing).",
+    "C15": "Whole DenovoMCMC.fit iterations with recorders (every (haplotype, site) pair once per step and temperature with the site's own allele number, random_breaks on the non-fixed SNVs, intervals partition), loci of 130-300 SNVs, inbreeding on both sides, thresholds 0 .. 1, the command-line value of --mcmc-fix-homozygous reaching the sampler (option plumbing); the read array handed to the sampler equals the model's restriction to the non-fixed columns (restrictHap), read counts passed through.",
     "C16": "Report lists with and without GP (both call-exact branches), mixed-ploidy pedigrees with a member without BAM, priors down to 1e-42 and nan, --prior-frequencies AFP and filters on AFP / AC applied to real assemble output (REFMASKED, NOA, monomorphic records), zero-read samples, --inbreeding, up to 257 alleles. Every third generated record puts the zero prior on the allele the samples carry, call always runs with a frequency tag and F > 0; plumbing observer on call / call-exact / call-pedigree.",
     "C17": "PEDERR: PedigreeAllelesMultiTrace.incongruence on int16 traces against the zero-error pmf; call-pedigree array construction from the --sample-parents / --gamete-ploidy / --gamete-ibd / --gamete-error files (shuffled rows, members without BAM, scalar / file forms) against an independent parse; lambda = 1 (open finding K7), shuffled progeny, reused scratch arrays, unreduced / odd / octoploid configurations, one-sided zero errors. PedigreeCallingMCMC.fit runs the sampler with the inheritance parameters given (exact zeros and ones included).",
     "C18": "Pedigrees whose unbalanced / clonal / triploid individuals are parents, permuted indices, pair members with further progeny, random pedigrees; accepted and rejected branch of the swap with the draw forced, jitted swap on int16 / -1 padded states with the dict cache, allele_step / sample_step / compound_step visit order, one-sided zero errors, lambda = 1, single-haplotype panels, members without reads. Sampler wiring: mcmc_sampler's source runs with recording moves (one compound step, then one exchange per pair of known parents; blanket = the two parents and each individual with one of them as a parent, once each - theorems pairPrior_of_listing / pairPrior_of_repeated; the call's own pedigree / parameters / reads), sample_step / compound_step pass their arguments on unchanged, PedigreeCallingMCMC.fit hands over the model's fields and log prior frequencies; ped_iteration_invariant lifts the per-move theorems to an iteration and a run. Inside a sweep every vector used equals the Gibbs / MH vector of the state at that moment (sweep functions as plain Python, vector functions wrapped); deep pedigrees with a mislabelled parent (log-domain oracles).",
